@@ -292,6 +292,29 @@ func runC05(w *World, r *Report) {
 	} else if nOK == nAll {
 		r.Hold("R5", "process-killer/message-boundary-type-assertions", token.NoPos, nAll, "all %d type assertions of the routing package on the transaction path are comma-ok", nAll)
 	}
+	// error-handling contradictions anywhere on the transaction path (a method called or
+	// deferred on the result of a failed call is a nil dereference - a panic - in waiting)
+	nMis := 0
+	for _, f := range names {
+		if f.Parent() != nil {
+			continue
+		}
+		var ms []ErrMisuse
+		for _, g := range Anons(f) {
+			ms = append(ms, errPolarity(g)...)
+		}
+		if len(ms) <= acceptedErrIdioms[fnID(f)].n {
+			continue
+		}
+		for i, m := range ms {
+			nMis++
+			killers++
+			r.Fail("R5", "process-killer/"+shortFn(fnID(f))+"/error-contradiction#"+itoa(i+1), m.At.Pos(), "%s: %s", m.Kind, trunc(Path(m.Err), 70))
+		}
+	}
+	if nMis == 0 {
+		r.Hold("R5", "process-killer/no-error-contradiction-on-transaction-path", token.NoPos, len(names), "no function reachable from the transaction entry points uses the result of a fallible call before or against its error check (beyond the reviewed idioms)")
+	}
 	if killers == 0 {
 		r.Hold("R5", "process-killer/none-on-transaction-path", token.NoPos, len(txnReach), "no panic/log.Panic/log.Fatal/os.Exit in the %d lunar functions reachable from processRequest/processResponse/OnError", len(txnReach))
 	}
